@@ -5,6 +5,8 @@ pub mod c03;
 pub mod c04;
 pub mod c05;
 pub mod c06;
+pub mod c07;
+pub mod c08;
 pub mod regtable;
 pub mod c10;
 pub mod c11;
@@ -15,7 +17,7 @@ pub mod c15;
 use crate::engine::Property;
 
 pub fn all_ids() -> Vec<&'static str> {
-    vec!["C01", "C02", "C03", "C04", "C05", "C06", "C10", "C11", "C12", "C13", "C15"]
+    vec!["C01", "C02", "C03", "C04", "C05", "C06", "C07", "C08", "C10", "C11", "C12", "C13", "C15"]
 }
 
 pub fn get(id: &str) -> Option<Property> {
@@ -26,6 +28,8 @@ pub fn get(id: &str) -> Option<Property> {
         "C04" => Some(c04::property()),
         "C05" => Some(c05::property()),
         "C06" => Some(c06::property()),
+        "C07" => Some(c07::property()),
+        "C08" => Some(c08::property()),
         "C10" => Some(c10::property()),
         "C11" => Some(c11::property()),
         "C12" => Some(c12::property()),
